@@ -314,6 +314,14 @@ func (g *G) HParam(contactLike bool) string {
 		name = g.R.Pick([]string{"lr", "LR"})
 		hasVal = g.R.Chance(1, 4)
 		val = g.alnum(1, 3)
+	case 6:
+		if g.R.Chance(1, 3) {
+			// names that merely start like the known ones
+			name = g.R.Pick([]string{"qos", "queue", "qop", "Qx", "tags", "ta", "expire", "expiress", "l", "lrx"})
+			val = g.R.Pick([]string{"0.25", "1", "0", "60", "0.5", g.SmallNum(3600)})
+			break
+		}
+		fallthrough
 	default:
 		name = g.tok(1, 8)
 		switch g.R.Intn(6) {
@@ -459,6 +467,9 @@ var Methods = []string{"INVITE", "ACK", "BYE", "CANCEL", "REGISTER", "PRACK", "O
 	"SUBSCRIBE", "NOTIFY", "INFO", "REFER", "PUBLISH", "MESSAGE"}
 
 func (g *G) Method() string {
+	if g.R.Chance(1, 40) {
+		return "X-" + strings.ToUpper(g.alnum(12, 30)) // an extension method longer than any standard one
+	}
 	switch g.R.Intn(12) {
 	case 0:
 		return g.tok(1, 10)
@@ -509,6 +520,9 @@ func (g *G) ViaVal() string {
 	}
 	if g.R.Chance(1, 3) {
 		sb.WriteString(";rport")
+	}
+	if g.R.Chance(1, 12) {
+		sb.WriteString(";" + g.alnum(1, 5) + "=" + g.R.Pick([]string{"\"a,b\"", "\"x;y\"", "\"p,q;branch=zz\"", "\"\\\",\""}))
 	}
 	if g.R.Chance(5, 6) {
 		sb.WriteString(";branch=")
